@@ -169,17 +169,17 @@ theorem decodeOpen_no_panic (b : Bytes) : decodeOpen b ≠ .panic := by
 /-! ## NOTIFICATION encoding -/
 
 
-theorem be16Bytes_len16 (k : Nat) (h : k < 65536) : be16Bytes (len16 k) = Spec.u16 k := by
+theorem be16Bytes_len16_rd (k : Nat) (h : k < 65536) : be16Bytes (len16 k) = Spec.u16 k := by
   simp only [be16Bytes, len16, Spec.u16, UInt16.toNat_ofNat']
   rw [Nat.mod_eq_of_lt (by simpa using h)]
 
 theorem prependHeader_eq_frame (m : Bytes) (t : UInt8) (h : m.length ≤ 4077) :
     prependHeader m t = Spec.frame t m := by
   unfold prependHeader Spec.frame Spec.marker
-  rw [be16Bytes_len16 _ (by simp only [Gen.headerLength]; omega)]
+  rw [be16Bytes_len16_rd _ (by simp only [Gen.headerLength]; omega)]
   simp only [Gen.headerLength, Nat.add_comm]
 
-theorem encodeNotifBody_eq (n : Notif) : encodeNotifBody n = [n.code, n.sub] ++ n.data := by
+theorem encodeNotifBody_eq_rd (n : Notif) : encodeNotifBody n = [n.code, n.sub] ++ n.data := by
   unfold encodeNotifBody
   split
   · rfl
@@ -193,7 +193,7 @@ theorem encodeNotifBody_eq (n : Notif) : encodeNotifBody n = [n.code, n.sub] ++ 
 theorem notif_wire (n : Notif) (h : n.data.length ≤ 4075) :
     encodeNotif n = Spec.frame 3 ([n.code, n.sub] ++ n.data) := by
   unfold encodeNotif
-  rw [encodeNotifBody_eq, prependHeader_eq_frame _ _ (by simp; omega)]
+  rw [encodeNotifBody_eq_rd, prependHeader_eq_frame _ _ (by simp; omega)]
   rfl
 
 theorem truncated_no_notification (s : Bytes) (h : s.length < 19) : readAll s = ([], .eof) := by
@@ -204,7 +204,7 @@ theorem truncated_no_notification (s : Bytes) (h : s.length < 19) : readAll s = 
 /-! ## reader: header classification and framing -/
 
 
-theorem be16_toNat (a b : UInt8) : (be16 a b).toNat = Spec.n16 a b := by
+theorem be16_toNat_rd (a b : UInt8) : (be16 a b).toNat = Spec.n16 a b := by
   have := UInt8.toNat_lt a
   have := UInt8.toNat_lt b
   simp only [be16, Spec.n16, UInt16.toNat_ofNat']
@@ -236,7 +236,7 @@ theorem readOne_header (h rest : Bytes) (hl : h.length = 19) :
   have h3 : (h ++ rest).drop Gen.headerLength = rest := by
     simp [Gen.headerLength, ← hl]
   rw [if_neg h1]
-  simp only [h2, h3, be16_toNat]
+  simp only [h2, h3, be16_toNat_rd]
   by_cases hm : h.take 16 ≠ Spec.marker
   · rw [if_pos hm, if_pos ((any_ne_iff_ne_marker _ (by simp [hl])).2 hm)]
     rfl
@@ -262,7 +262,7 @@ theorem fhdr_16 (t : UInt8) (n : Nat) : (fhdr t n).getD 16 0 = UInt8.ofNat (n / 
 theorem fhdr_17 (t : UInt8) (n : Nat) : (fhdr t n).getD 17 0 = UInt8.ofNat (n % 256) := rfl
 theorem fhdr_18 (t : UInt8) (n : Nat) : (fhdr t n).getD 18 0 = t := rfl
 
-theorem n16_u16 (n : Nat) (h : n < 65536) :
+theorem n16_u16_rd (n : Nat) (h : n < 65536) :
     Spec.n16 (UInt8.ofNat (n / 256)) (UInt8.ofNat (n % 256)) = n := by
   simp only [Spec.n16, UInt8.toNat_ofNat']
   omega
@@ -274,7 +274,7 @@ theorem readOne_frame (t : UInt8) (body rest : Bytes) (hb : body.length ≤ 4077
       | .ok m => .ok (m, rest)
       | .error e => .error e := by
   rw [frame_eq, readOne_header _ _ (fhdr_length _ _)]
-  simp only [fhdr_take, fhdr_16, fhdr_17, fhdr_18, n16_u16 (19 + body.length) (by omega)]
+  simp only [fhdr_take, fhdr_16, fhdr_17, fhdr_18, n16_u16_rd (19 + body.length) (by omega)]
   rw [if_neg (by simp), if_neg (by omega), if_neg (by simp)]
   simp
 
